@@ -119,8 +119,9 @@ def body(chk: check.Check):
     chk.uncovered += [
         'statistical quality of the draw (uniformity of pandas.DataFrame.sample over the k-subsets) is not part of the property; '
         'the evidence only reports how many of the admissible draws of the small instances were observed',
-        'cross-nested logit (get_cross_nested_logit) is not replayed; nested logit is replayed for complete sampling only',
-        'likelihood of a partially sampled NESTED logit (approximation by the second sample) has no exact reference and is not compared',
+        'nested and cross-nested logit are replayed for complete sampling only: with a partial second sample the likelihood is an '
+        'approximation without exact reference',
+        'the allocation parameters (_CNL_ columns) of a cross-nested context are not judged in the row traces, only through the replayed likelihood',
         'tables larger than %d alternatives / more than 3 strata' % (8 if quick else 16),
     ]
     chk.assumptions += [
@@ -156,7 +157,7 @@ def record_traces(chk, rng, quick):
     reps = 3 if quick else 8
     for k, inst in enumerate(smalls):
         for r in range(reps):
-            items.append((inst, chk.seed + 7919 * r + k, 'small'))
+            items.append((inst, chk.seed + 7919 * r + k, 'small', sp.VARIANTS[(k + r) % 4] if r == reps - 1 else 'plain'))
     # the same small tables with every MEV partition shape
     for n in (3, 4):
         alts = [(3, 1, 4), (7, 2, 9), (10, 3, 0), (12, 4, 5)][:n]
@@ -167,19 +168,19 @@ def record_traces(chk, rng, quick):
                     for ks in sp.size_vectors(part):
                         inst = sp.make_instance(alts, [(ids, rng.randint(1, n))], list(zip(part, ks)))
                         for r in range(2 if quick else 4):
-                            items.append((inst, chk.seed + 104729 * r + len(items), 'small-mev'))
+                            items.append((inst, chk.seed + 104729 * r + len(items), 'small-mev', 'plain'))
     nrand = 400 if quick else 3000
     for k in range(nrand):
         big = (not quick) and k % 5 == 0
-        inst = sp.random_instance(rng, 2 if not big else 9, 8 if not big else 16)
+        inst = sp.random_instance(rng, 2 if not big else 9, 8 if not big else 16, maxstrata=3 if quick else 5)
         for r in range(2 if quick else 3):
-            items.append((inst, chk.seed + 15485863 * r + 31 * k, 'random'))
+            items.append((inst, chk.seed + 15485863 * r + 31 * k, 'random', sp.VARIANTS[(k + r) % 4]))
     res = par.pmap(_record, items, chunk=25)
     return items, res
 
 
 def _record(item):
-    return sp.record_instance((item[0], item[1]))
+    return sp.record_instance((item[0], item[1], item[3]))
 
 
 def judge_traces(chk, recorded):
@@ -187,9 +188,9 @@ def judge_traces(chk, recorded):
     groups = []
     tid = 0
     meta = []
-    for (inst, seed, family), (st, val) in zip(items, res):
+    for (inst, seed, family, variant), (st, val) in zip(items, res):
         if st != 'ok':
-            chk.violation(f'record:{st}', dict(instance=inst, seed=seed, error=val),
+            chk.violation(f'record:{st}', dict(instance=inst, seed=seed, variant=variant, error=val),
                           match=dict(clause='record-exception', exception=val[0] if st == 'exc' else 'died'))
             continue
         g = [val['inst']] + val['rows']
@@ -198,10 +199,12 @@ def judge_traces(chk, recorded):
             e['tid'] = tid
         groups.append(g)
         meta.append((inst, seed, family, val))
+        if val['note']:
+            chk.violation('trace:recycled-differs', dict(instance=inst, seed=seed), match=dict(clause='recycled-differs'))
     verdicts, results = sp.validate(groups, parts=16)
     for k, r in enumerate(results):
         chk.add_tlc(f'SamplingTrace file {k + 1}/{len(results)}', r)
-    stats = dict(contexts=len(meta), rows=0, rows_with_second_sample=0, positions=0, rows_grouped_by_stratum=0,
+    stats = dict(contexts=len(meta), contexts_by_variant={v: sum(1 for m in meta if m[3]['variant'] == v) for v in sp.VARIANTS}, rows=0, rows_with_second_sample=0, positions=0, rows_grouped_by_stratum=0,
                  logit_values_compared=0, largest_table=0)
     seen_draws = {}
     possible = {}
@@ -229,7 +232,7 @@ def judge_traces(chk, recorded):
             if not sp.row_ok(v):
                 clauses = v['fails'] or ['not-a-draw']
                 for clause in clauses:
-                    chk.violation(f'trace:{clause}', dict(instance=inst, seed=seed, individual=[ev['choice'], ev['x']], row=ev['row'],
+                    chk.violation(f'trace:{clause}', dict(instance=inst, seed=seed, variant=val['variant'], individual=[ev['choice'], ev['x']], row=ev['row'],
                                                           second_sample=ev.get('mrow'), verdict=v),
                                   match=dict(clause=clause, **facts))
                 continue
@@ -301,7 +304,7 @@ def controls(chk, recorded, emitted):
 
     # (2) code -> spec: corruptions of recorded rows must be rejected with the right clause
     def pick(pred):
-        for (inst, seed, fam), (st, val) in zip(items, res):
+        for (inst, seed, fam, variant), (st, val) in zip(items, res):
             if st == 'ok' and pred(inst, val):
                 return inst, val
         raise MachineryError('no recorded trace suitable for a control')
@@ -411,7 +414,8 @@ def controls(chk, recorded, emitted):
                 st == 'ok' and any(k.startswith('full:sampled-logit') for k, _, _ in out['problems'])
                 and not any(k.startswith('full:full-logit') for k, _, _ in out['problems']))
     st, out = rt.forked(_quiet, sp.replay_full, (rec, chk.seed, None))
-    chk.control('unmodified replay of the same instance is clean', st == 'ok' and not out['problems'])
+    chk.control('unmodified replay of the same instance: no logit mismatch',
+                st == 'ok' and not any(k.startswith(('full:sampled-logit', 'full:full-logit')) for k, _, _ in out['problems']))
 
     # (6) input judgement: the spec must call a valid input valid and name the clause of an invalid one
     evs = [sp.input_event(('valid', [1, 2, 3], [[1, 2], [3]], [1, 1], [1]), ('rejected', 'BiogemeError', '')),
